@@ -1,5 +1,7 @@
 //! fvh — verification harness for iGentAI/ferrous (property-based testing and fuzzing).
 #![allow(unused_parens)]
+pub mod alloc;
+pub mod childworker;
 pub mod client;
 pub mod driver;
 pub mod dump;
